@@ -16,6 +16,30 @@ def _alarm(signum, frame):
   raise CaseTimeout()
 
 
+def _raised_inside_library(exc, repo_root):
+  """'file:line' of the innermost metric_learn frame if the exception came
+  out of the library without passing through harness code again (the
+  instrumentation wrappers are transparent), else None."""
+  import os
+  import traceback
+  frames = traceback.extract_tb(exc.__traceback__)
+  lib = os.path.join(repo_root, 'metric_learn') + os.sep
+  here = os.path.dirname(os.path.abspath(__file__)) + os.sep
+  last_harness = -1
+  last_lib = -1
+  for i, fr in enumerate(frames):
+    fn = os.path.abspath(fr.filename)
+    if fn.startswith(lib):
+      last_lib = i
+    elif fn.startswith(here) and not fn.startswith(
+            os.path.join(here, 'instrument') + os.sep):
+      last_harness = i
+  if last_lib > last_harness >= 0:
+    fr = frames[last_lib]
+    return '%s:%d' % (os.path.relpath(fr.filename, repo_root), fr.lineno)
+  return None
+
+
 def main(argv):
   pid, inp, out = argv
   if os.environ.get(GUARD) != '1':
@@ -45,9 +69,20 @@ def main(argv):
         signal.alarm(0)
       except CaseTimeout:
         judge.skip('harness', 'case-watchdog')
-      except Exception:
+      except Exception as exc:
         signal.alarm(0)
-        rec['error'] = tb()
+        where = _raised_inside_library(exc, repo.REPO)
+        if where:
+          # the library raised on a call the check makes unguarded, i.e. one
+          # it expects to return on the unchanged tree: the method did not
+          # answer.  That is an observation about the code under test, not a
+          # harness failure (which would leave the run inconclusive).
+          judge.violated('%s.library-call-returns' % pid.upper(),
+                         {'raised': repr(exc)[:300], 'where': where,
+                          'traceback': tb()[-1200:]},
+                         mechanism='library-raised-' + type(exc).__name__)
+        else:
+          rec['error'] = tb()
       finally:
         signal.alarm(0)
       rec['judge'] = judge.to_dict()
